@@ -45,7 +45,7 @@ def run(tier, build, replay=None):
             out.violation(f"the unfiltered run succeeds but the run with window ({f}, {t}) fails: {i}", rep, tags={"window-fails"})
             continue
         mono = dates_monotone(c)
-        tags = set() if mono else {"non-monotone-local-dates"}
+        tags = set() if mono or t is None else {"non-monotone-local-dates"}       # F9 concerns the to-date cut only
         lo = -10 ** 9 if f is None else f
         hi = 10 ** 9 if t is None else t
         evs = {e["row"]: e for e in hist.taxable_oracle(c)}
